@@ -609,7 +609,7 @@ func sortStrings(s []string) []string {
 func main() {
 	run := evid.New("C03", "exploration")
 	defer sbx.RemoveBase()
-	run.Rule = "seeded histories (histgen: branches, merges incl. octopus, orphan branches, tags, renames/copies/deletes, files moving in and out of LFS tracking, nested .gitattributes, symlinks, exec bits, empty files) pushed by seeded plans over {git push <branch>, --all, --tags, new commits, amended+forced, deleted refs, git lfs push <ref>, git lfs push --all, a second clone moving the remote branch, missing local object with/without lfs.allowincompletepush} x batch size {1,2,3,100} x {http fake server, file:// standalone remote} x transient server faults in one http case out of three {PUT 503, PUT connection reset, batch 429, mixed, and the schedule "an object uses up its retry budget, then meets objects not yet sent in a batch call that fails" with a bulk commit and a slow batch endpoint}; family b re-points the remote to an empty server. Oracle: brute-force enumeration (git rev-list/ls-tree/cat-file with filters disabled + ptrspec) of every pointer in every commit reachable from the remote's refs vs the server store. Class = (transport, family, batch size, set of step kinds)."
+	run.Rule = "seeded histories (histgen: branches, merges incl. octopus, orphan branches, tags, renames/copies/deletes, files moving in and out of LFS tracking, nested .gitattributes, symlinks, exec bits, empty files) pushed by seeded plans over {git push <branch>, --all, --tags, new commits, amended+forced, deleted refs, git lfs push <ref>, git lfs push --all, a second clone moving the remote branch, missing local object with/without lfs.allowincompletepush} x batch size {1,2,3,100} x {http fake server, file:// standalone remote} x transient server faults in one http case out of three {PUT 503, PUT connection reset, batch 429, mixed, and the schedule 'an object uses up its retry budget, then meets objects not yet sent in a batch call that fails' with a bulk commit and a slow batch endpoint}; family b re-points the remote to an empty server. Oracle: brute-force enumeration (git rev-list/ls-tree/cat-file with filters disabled + ptrspec) of every pointer in every commit reachable from the remote's refs vs the server store. Class = (transport, family, batch size, set of step kinds)."
 	run.Assumptions = []string{"family a: the fake server never loses objects and remote-tracking refs only change through push/fetch against the same server, so 'reachable from remote refs => on server' is an invariant every correct implementation maintains", "pointers are the canonical non-empty pointers found in any tree (the generator creates no look-alikes)", "git 2.39.5"}
 	n := run.N(40, 400)
 	workers := runtime.NumCPU()
